@@ -7,6 +7,7 @@ import Driver.Flood
 import Driver.Grp
 import Driver.Commit
 import Driver.Ev
+import Driver.Heap
 /-! Model driver: one request per line on stdin, one answer per line on stdout.
     Pure areas answer from the request alone; `store` threads the backend states. -/
 open Drv
@@ -14,6 +15,7 @@ open Drv
 structure State where
   store : Store.DrvSt := {}
   commit : Commit.CS := {}
+  heap : HeapArea.DrvSt := {}
 
 def dispatch (st : State) (line : String) : State × String :=
   match (line.splitOn " ").filter (· ≠ "") with
@@ -24,6 +26,7 @@ def dispatch (st : State) (line : String) : State × String :=
   | "grp" :: r => (st, Grp.handle r)
   | "ev" :: r => (st, Ev.handle r)
   | "commit" :: r => let (c', out) := Commit.handle st.commit r; ({ st with commit := c' }, out)
+  | "heap" :: r => let (h', out) := HeapArea.handle st.heap r; ({ st with heap := h' }, out)
   | "store" :: r => let (s', out) := Store.handle st.store r; ({ st with store := s' }, out)
   | [] => (st, "bad empty")
   | a :: _ => (st, s!"bad area {a}")
